@@ -284,17 +284,30 @@ def task_fma(params, rec):
                 mh_ = exact.rn_units(pe, 2 * k, dt)
                 no_sum_ovf = numpy.isfinite(mh_) & numpy.isfinite(numpy.where(numpy.isfinite(mh_), mh_, 0).astype(dt) + z) & (numpy.abs(z.astype(numpy.float64)) < float(numpy.finfo(dt).max) / 2) & (numpy.abs(mh_.astype(numpy.float64)) < float(numpy.finfo(dt).max) / 2)
             sub = slice(0, max(1, x.size // 8))
+            with numpy.errstate(all="ignore"):
+                fallback = (x * y).astype(dt) + z  # what the documented fix_overflow fallback (xyh = x*y, xyl = 0) amounts to: RN(RN(x*y) + z)
+
+            def ovf_groups(r_, sl=slice(None)):
+                """KF-C11-fma-overflow-fallback is the mechanism 'the fallback drops the error term': only results equal to RN(RN(x*y)+z) belong to it;
+                anything else in the internal-overflow region (an infinity, a NaN, another value) is reported under its own site"""
+                r_ = numpy.broadcast_to(numpy.asarray(r_), x[sl].shape)
+                o = ~no_int_ovf[sl]
+                fb = fallback[sl]
+                # when RN(RN(x*y)+z) itself overflows, the fallback path ends in an infinity or (inf - inf in the following 2Sum) a NaN
+                same = numpy.where(numpy.isfinite(fb), r_ == fb, ~numpy.isfinite(r_))
+                return dict(dekker_internal_overflow=o & same, internal_overflow_result_is_not_the_documented_fallback=o & ~same)
+
             for v in FMA_VARIANTS:
                 name = f"{v['algorithm']}:fo={int(v['fix_overflow'])}:pz={int(v['possibly_zero_z'])}"
                 dv = dom if v["fix_overflow"] else (dom & no_int_ovf & no_sum_ovf)
                 try:
                     if v["algorithm"] in ("a7", "apmath"):
                         r = apmath_algorithms.fma_real(ctx, x, y, z, functional=True, **v)
-                        judge(rec, "fma_real", name, dt, r, ex, 2 * k, dv, 1, cls, (x, y, z), extra=dict(dekker_internal_overflow=~no_int_ovf))
+                        judge(rec, "fma_real", name, dt, r, ex, 2 * k, dv, 1, cls, (x, y, z), extra=ovf_groups(r))
                     else:
                         # a8/a9 use is_power_of_two-type predicates whose api wrapper refuses arrays: scalar calls on a subsample
                         r = numpy.array([apmath_algorithms.fma_real(ctx, a, b, c, functional=True, **v) for a, b, c in zip(x[sub], y[sub], z[sub])], dtype=dt)
-                        judge(rec, "fma_real", name, dt, r, ex[sub], 2 * k, dv[sub], 1, cls[sub], (x[sub], y[sub], z[sub]), extra=dict(dekker_internal_overflow=~no_int_ovf[sub]))
+                        judge(rec, "fma_real", name, dt, r, ex[sub], 2 * k, dv[sub], 1, cls[sub], (x[sub], y[sub], z[sub]), extra=ovf_groups(r, sub))
                 except Exception as e:
                     rec.violation("fma_real-exception:" + name, dict(dtype=params["dtype"], exc=f"{type(e).__name__}: {e}"[:200]))
                 for scale in (True, False):
@@ -307,7 +320,7 @@ def task_fma(params, rec):
                         if not scale:
                             lim = {16: 986.0, 32: 7.5e33, 64: 4.3e299}[f.bits]
                             d2 = d2 & (numpy.abs(x.astype(numpy.float64)) <= lim) & (numpy.abs(y.astype(numpy.float64)) <= lim)
-                        judge(rec, "apmath.fma", name + f":scale={int(scale)}", dt, r, ex, 2 * k, d2, 1, cls, (x, y, z), extra=dict(dekker_internal_overflow=~no_int_ovf))
+                        judge(rec, "apmath.fma", name + f":scale={int(scale)}", dt, r, ex, 2 * k, d2, 1, cls, (x, y, z), extra=ovf_groups(r))
                     except Exception as e:
                         rec.violation("apmath.fma-exception:" + name, dict(dtype=params["dtype"], exc=f"{type(e).__name__}: {e}"[:200]))
         if rep == 0:
